@@ -1,5 +1,7 @@
 ; time.smt2 - time.Time as an opaque sort observed through comparisons; the clock is world state
 ; usetype time.Time
+; requires strings.smt2
+; requires names.smt2
 (declare-fun after (O_time_Time O_time_Time) Bool)
 (declare-fun nowAt (Int) O_time_Time)          ; k-th reading of the clock during the call
 (declare-fun utc (O_time_Time) O_time_Time)
@@ -13,9 +15,6 @@
 (declare-fun yearOf (O_time_Time) Int)
 (assert (forall ((s String) (l Int)) (=> (isDate s) (and (<= 0 (yearOf (civil s l))) (<= (yearOf (civil s l)) 9999)))))
 ; the duration grammar of duration.json: ^(([0-9]+)y)?(([0-9]+)m)?(([0-9]+)d)?$ ; groups 2, 4, 6 are the digit runs
-(declare-fun isDuration (String) Bool)
 (declare-fun durY (String) String) (declare-fun durM (String) String) (declare-fun durD (String) String)
-(declare-fun isInt (String) Bool)          ; decimal text that fits into an int
-(declare-fun intval (String) Int)
 (define-fun ival ((s String)) Int (ite (= s "") 0 (intval s)))
 (assert (not (isInt "")))
